@@ -5,6 +5,9 @@
                ops::Index falls back with unwrap_or(&NIL), never unwrap
   R-TAIL-MAP   cons::ListIter::next moves to Cons / Exhausted / Dot exactly for a Cons / Null / other cdr
                (outcome map over all 11 value kinds)
+  R-ALIST      association-list lookup over synthetic lists with concrete key texts
+  R-CLONE-ID   the hand-written iterative Cons::clone, evaluated over structural chains (1..3 cells, six kinds
+               of tail, nested chains), gives back the structure it was given
   thorough     the same over the exact monomorphic reachability from the roots crate's
                value_get_* / value_index_* operations
 Not decided: the consistency relations between the traversals (value-level).
@@ -57,6 +60,9 @@ def run(ctx):
                                 "every other kind (incl. #nil) is a dotted tail")
     n = tailmap.check(rt, lexpr, which=("cons",))
     rt.floor("cdr-kinds", n)
+    from .. import cloneid
+    rc = ctx.rule("R-CLONE-ID", "the hand-written, iterative Cons::clone gives back the cells, elements and tail it was given")
+    cloneid.check_cons(rc, lexpr, ctx.tier == "thorough")
     if ctx.tier == "thorough":
         m = db.mono()
         r2 = ctx.rule("R-PANIC-INV/mono", "the same inventory over the exact monomorphic reachability of the index operations")
